@@ -25,6 +25,10 @@ func (e Ev) String() string {
 	return fmt.Sprintf("%s(%s)", e.Type, e.Res)
 }
 
+// TombstoneAsResource renders tombstones like a value-less resource at version undefined: over the wire
+// a tombstone is transported as an ordinary resource of its type, so tombstone-ness is not compared by C11.
+var TombstoneAsResource bool
+
 // Render converts a real event.
 func Render(ev state.Event) Ev {
 	out := Ev{Type: ev.Type.String()}
@@ -35,8 +39,13 @@ func Render(ev state.Event) Ev {
 		return out
 	}
 	if ev.Resource != nil {
-		if _, tomb := ev.Resource.(*resource.Tombstone); tomb {
+		if TombstoneAsResource && ev.Type == state.Destroyed && ev.Resource.Metadata().Version().String() == resource.VersionUndefined.String() {
+			out.Res = fmt.Sprintf("%s/%s@undefined", ev.Resource.Metadata().Type(), ev.Resource.Metadata().ID())
+		} else if _, tomb := ev.Resource.(*resource.Tombstone); tomb {
 			out.Res = "tombstone:" + string(ev.Resource.Metadata().ID())
+			if TombstoneAsResource {
+				out.Res = fmt.Sprintf("%s/%s@undefined", ev.Resource.Metadata().Type(), ev.Resource.Metadata().ID())
+			}
 		} else {
 			out.Res = hx.Snap(ev.Resource)
 		}
